@@ -18,6 +18,14 @@ CLAIMED = {
              'of the control points.  Bounded only in degree (the classes fix it) and derivative order.',
         note='Reals, not IEEE doubles (the "to within rounding" clause is outside). numpy.poly1d arithmetic on dtype=object is executed, not modelled. z3 5.1 trusted; two obligations per family re-checked with cvc5.',
         design='3/C03'),
+    'C19': dict(
+        text='bezier_point, bezier2polynomial (incl. general-degree branch), polynomial2bezier, split_bezier, halve_bezier, bernstein '
+             'are executed on symbolic control points for every degree 0..8 and shown by z3 to equal an independent Bernstein oracle '
+             '(identities, all values).  polyroots/polyroots01 run on a stubbed np.roots returning an arbitrary list of m<=4 (thorough 5) '
+             'roots in arbitrary order: z3 shows every simple real root in [0,1] occurs exactly once.  rational_limit runs on poly1d '
+             'objects with symbolic coefficients f=(t-t0)^m f1, g=(t-t0)^m g1, m<=3, deg<=2: returns f1(t0)/g1(t0), raises only when no limit.',
+        note='np.roots is a stub (exact roots, arbitrary order; LAPACK accuracy outside). numpy.trim_zeros replaced by its sequential definition for object arrays. Reals, not doubles. n_choose_k checked by concrete exhaustive evaluation for n<=8.',
+        design='3/C19'),
 }
 
 NOT_YET = 'check not built yet in this round (see DESIGN.md section 3 for the plan)'
